@@ -9,7 +9,7 @@ Open Scope N_scope.
 Theorem c09_live_ids_unique : forall (server : bool) (ops : list mop),
   let m := fst (mrun (mux_new server) ops) in
   NoDup (map t_id (m_reliable m)) /\ NoDup (map t_id (m_unreliable m)).
-Proof. intros. pose proof (mrun_inv ops (mux_new server) (minv_new server)) as [A B _]. split; assumption. Qed.
+Proof. intros. pose proof (mrun_inv ops (mux_new server) (minv_new server)) as [A B _ _]. split; assumption. Qed.
 Print Assumptions c09_live_ids_unique.
 
 (* ---- identifiers handed out by Create*Tube (pickTubeID under the muxer lock): in every reachable state the
@@ -40,19 +40,30 @@ Print Assumptions c09_ids_distinct_parity.
    (1) no tube other than the one with the frame's (reliability, id) changes in any way;
    (2) if that tube is live it handles the frame (initiate handling for REQ/RESP, receive otherwise) and nothing
        is queued for Accept — in particular a repeated REQ for a live tube queues nothing;
-   (3) if it is unknown: a REQ on a running muxer creates exactly one tube with the opener's reliability, id and
-       type and queues exactly that tube once; any other frame leaves the muxer unchanged. *)
+   (3) if it is unknown: a REQ on a running muxer whose Accept queue is not full creates exactly one tube with the
+       opener's reliability, id and type and queues exactly that tube once; any other frame — including a REQ
+       that meets a full Accept queue (128 waiting tubes) — leaves the muxer COMPLETELY unchanged: a refused
+       request registers nothing, so the opener's repeated REQ is treated as a first one again. *)
 Theorem c09_demux_by_rel_id_accept_once : forall (m : mux) (f : mframe),
   (forall rel id, (rel <> mf_rel f \/ id <> mf_id f) -> get_tube (demux m f) rel id = get_tube m rel id) /\
   (forall t, get_tube m (mf_rel f) (mf_id f) = Some t ->
      get_tube (demux m f) (mf_rel f) (mf_id f) = Some (handled t f) /\ m_queue (demux m f) = m_queue m) /\
   (get_tube m (mf_rel f) (mf_id f) = None ->
-     if mf_req f && m_running m then
+     if mf_req f && m_running m && negb (queue_full m) then
        let t := new_tube (mf_rel f) (mf_id f) (mf_type f) (m_epoch m) in
        get_tube (demux m f) (mf_rel f) (mf_id f) = Some (handled t f) /\ m_queue (demux m f) = m_queue m ++ [t]
      else demux m f = m).
 Proof. intros. destruct (demux_spec m f) as (A & B & C & _). auto. Qed.
 Print Assumptions c09_demux_by_rel_id_accept_once.
+
+(* ---- every live tube that the peer opened is, or was, offered: in every reachable state the Accept queue holds
+   at most 128 tubes, and (c09_demux_by_rel_id_accept_once, case 3) a tube enters a map on a peer's REQ only
+   together with its entry in the Accept queue — there is no reachable state with a remotely opened tube that
+   was registered but never queued. *)
+Theorem c09_accept_queue_bounded : forall (server : bool) (ops : list mop),
+  (List.length (m_queue (fst (mrun (mux_new server) ops))) <= accept_queue_cap)%nat.
+Proof. intros. apply (inv_queue _ (mrun_inv ops (mux_new server) (minv_new server))). Qed.
+Print Assumptions c09_accept_queue_bounded.
 
 (* ---- unreliable tubes: for any list of arriving frames each of which is the frame of some written message
    (in any order, with any duplication and omission), what is queued for the reader is a sequence of whole
